@@ -76,6 +76,10 @@ type FakeCA struct {
 	Calls   []CACall
 	Script  []CABehaviour // per call index; the last entry repeats
 	Default CABehaviour
+	// Replay: a request for a public key the CA has certified before gets the very same certificates again
+	// (a CA that answers a repeated request from its records)
+	Replay   bool
+	replayed map[string][]ssh.PublicKey
 	OnCall  func(n int)
 }
 
@@ -132,6 +136,23 @@ func (ca *FakeCA) Sign(ctx context.Context, req *proto.SSHCertificateSigningRequ
 	if b.WrongKey {
 		pub = SSHPub("p256c")
 	}
+	if ca.Replay && b.Err == "" {
+		ca.mu.Lock()
+		old, ok := ca.replayed[req.PublicKey]
+		ca.mu.Unlock()
+		if ok {
+			var cs []*ssh.Certificate
+			for _, k := range old {
+				if c, isCert := k.(*ssh.Certificate); isCert {
+					cs = append(cs, c)
+				}
+			}
+			ca.mu.Lock()
+			ca.Calls[i].Certs = cs
+			ca.mu.Unlock()
+			return old, b.Comments, nil
+		}
+	}
 	n := b.NCerts
 	if n <= 0 {
 		n = 1
@@ -173,6 +194,12 @@ func (ca *FakeCA) Sign(ctx context.Context, req *proto.SSHCertificateSigningRequ
 	}
 	ca.mu.Lock()
 	ca.Calls[i].Certs = certs
+	if ca.Replay {
+		if ca.replayed == nil {
+			ca.replayed = map[string][]ssh.PublicKey{}
+		}
+		ca.replayed[req.PublicKey] = out
+	}
 	ca.mu.Unlock()
 	return out, b.Comments, nil
 }
@@ -352,6 +379,11 @@ type FakeHandler struct {
 	NKeys   int
 	NReqs   int
 	GenErr  bool
+	// ReuseKeys: a second Generate hands back the agent keys (and requests) of the first instead of making new ones
+	ReuseKeys bool
+	// NameAs: the name the handler reports ("" = a name of its own, "verif.<ID>"); names need not be
+	// unique - every instance of one handler type reports the same name
+	NameAs string
 	// GenErrKind: with GenErr, how Generate fails: "" (generation error naming the handler) | conf | untyped |
 	// nameless | nameless-wrapped (typed errors without a handler name) | nokeys | emptykeys (no error, no key)
 	GenErrKind string
@@ -397,6 +429,9 @@ func (h *FakeHandler) Name() string {
 	if h.PanicIn == "name" {
 		panic("verif: Name panics")
 	}
+	if h.NameAs != "" {
+		return h.NameAs
+	}
 	return "verif." + h.ID
 }
 
@@ -431,6 +466,13 @@ func (h *FakeHandler) Generate(p *csr.ReqParam) ([]csr.AgentKey, error) {
 	h.Log.add(h.ID + ".generate")
 	if h.PanicIn == "generate" {
 		panic("verif: Generate panics")
+	}
+	if h.ReuseKeys && len(h.Keys) > 0 {
+		var again []csr.AgentKey
+		for _, k := range h.Keys {
+			again = append(again, k)
+		}
+		return again, nil
 	}
 	if h.GenErr {
 		switch h.GenErrKind {
